@@ -2,10 +2,11 @@ import PromModel.Tsdb.Postings
 /-
   Suite `select` (property C16).
 
-  ops:  `load <head|block> <series>…`            series = `name=value,name=value` (names sorted, ASCII)
-        `select <0|1> <matcher>…`                 0/1 = sortSeries
-        `lvals <hexname> <limit> <matcher>…`      limit 0 = none
-        `lnames <limit> <matcher>…`
+  ops:  `load <head|block> <series>…`                  series = `name=value,name=value@t` (names sorted, ASCII;
+                                                         one sample at time t)
+        `select <0|1> <mint> <maxt> <matcher>…`         0/1 = sortSeries; the querier's time range
+        `lvals <hexname> <limit> <mint> <maxt> <matcher>…`   limit 0 = none
+        `lnames <limit> <mint> <maxt> <matcher>…`
         matcher = `m:<hexname>:<eq|ne|re|nre>:<hexvalue>:<sm>`; `<sm>` = `-` (no set matches) or a
         comma-separated list of hex strings (`e` = the empty string) = Go's `Matcher.SetMatches()`.
   out:  `ok <n>` for load; `ok i,j,…` (indices of the loaded series, in the order returned) for select;
@@ -90,11 +91,20 @@ def parseRe? (s : String) : Option Re :=
 
 /-! ### Parsing ops -/
 
-def parseSeries? (tok : String) : Option (List (String × String)) :=
+def parseLabels? (tok : String) : Option (List (String × String)) :=
   (tok.splitOn ",").mapM fun kv =>
     match kv.splitOn "=" with
     | [k, v] => some (k, v)
     | _ => none
+
+/-- `labels@t` (time defaults to 1000) -/
+def parseSeriesT? (tok : String) : Option (List (String × String) × Int) :=
+  match tok.splitOn "@" with
+  | [l] => do pure (← parseLabels? l, 1000)
+  | [l, t] => do pure (← parseLabels? l, ← t.toInt?)
+  | _ => none
+
+def parseSeries? (tok : String) : Option (List (String × String)) := (parseSeriesT? tok).map (·.1)
 
 def parseType? : String → Option MatchType
   | "eq" => some .eq | "ne" => some .ne | "re" => some .re | "nre" => some .nre | _ => none
@@ -129,39 +139,58 @@ def parseStrs? (out : String) : Option (List String) :=
 
 structure St where
   lsets : List (List (String × String)) := []
+  times : List Int := []
+  block : Bool := false
   ix : Index := { series := [], lvs := fun _ => [] }
+
+def timeOf (lsets : List (List (String × String))) (times : List Int) (ls : List (String × String)) : Int :=
+  match lsets.findIdx? (· == ls) with
+  | some i => times[i]?.getD 0
+  | none => 0
+
+/-- `headIndexReader.LabelValues/LabelNames`: nothing if the querier's range misses the head's range
+    (block index readers do not look at the range at all). -/
+def St.labelQueryEmpty (st : St) (mint maxt : Int) : Bool :=
+  !st.block && !st.times.isEmpty &&
+    (decide (maxt < st.times.foldl min (st.times.headD 0)) || decide (mint > st.times.foldl max (st.times.headD 0)))
 
 def idxOf (st : St) (ls : List (String × String)) : Nat := (st.lsets.findIdx? (· == ls)).getD 9999
 
 def stepModel (st : St) (line : String) : St × String :=
   match toks line with
   | "load" :: kind :: ss =>
-    match ss.mapM parseSeries? with
+    match ss.mapM parseSeriesT? with
     | none => (st, "bad-op")
-    | some lsets =>
+    | some sts =>
+      let lsets := sts.map (·.1)
       let ix := if kind = "block" then mkBlock lsets else mkHead lsets
-      ({ lsets, ix }, s!"ok {lsets.length}")
-  | "select" :: srt :: ms =>
-    match ms.mapM parseMatcher? with
-    | none => (st, "bad-op")
-    | some ms =>
+      ({ lsets, times := sts.map (·.2), block := kind = "block", ix }, s!"ok {lsets.length}")
+  | "select" :: srt :: mint :: maxt :: ms =>
+    match mint.toInt?, maxt.toInt?, ms.mapM parseMatcher? with
+    | some mint, some maxt, some ms =>
       match select st.ix (srt = "1") ms with
-      | .ok ss => (st, showIdx (ss.map fun s => idxOf st s.labels))
+      | .ok ss =>
+        -- `blockBaseSeriesSet.Next` skips series without a chunk overlapping [mint, maxt]
+        let ss := ss.filter fun s => let t := timeOf st.lsets st.times s.labels; decide (mint ≤ t ∧ t ≤ maxt)
+        (st, showIdx (ss.map fun s => idxOf st s.labels))
       | .error _ => (st, "err unexpected-all-postings")
-  | "lvals" :: n :: lim :: ms =>
-    match hexDec? n, lim.toNat?, ms.mapM parseMatcher? with
-    | some n, some lim, some ms =>
+    | _, _, _ => (st, "bad-op")
+  | "lvals" :: n :: lim :: mint :: maxt :: ms =>
+    match hexDec? n, lim.toNat?, mint.toInt?, maxt.toInt?, ms.mapM parseMatcher? with
+    | some n, some lim, some mint, some maxt, some ms =>
+      if st.labelQueryEmpty mint maxt then (st, "ok -") else
       match labelValues st.ix n lim ms with
       | .ok vs => (st, showStrs vs)
       | .error _ => (st, "err unexpected-all-postings")
-    | _, _, _ => (st, "bad-op")
-  | "lnames" :: lim :: ms =>
-    match lim.toNat?, ms.mapM parseMatcher? with
-    | some lim, some ms =>
+    | _, _, _, _, _ => (st, "bad-op")
+  | "lnames" :: lim :: mint :: maxt :: ms =>
+    match lim.toNat?, mint.toInt?, maxt.toInt?, ms.mapM parseMatcher? with
+    | some lim, some mint, some maxt, some ms =>
+      if st.labelQueryEmpty mint maxt then (st, "ok -") else
       match labelNames st.ix lim ms with
       | .ok vs => (st, showStrs vs)
       | .error _ => (st, "err unexpected-all-postings")
-    | _, _ => (st, "bad-op")
+    | _, _, _, _ => (st, "bad-op")
   | _ => (st, "bad-op")
 
 def model (ops : List String) : List String :=
@@ -184,43 +213,45 @@ def labelsSorted : List (List (String × String)) → Bool
   | a :: b :: rest => labelsLe a b && labelsSorted (b :: rest)
   | _ => true
 
-/-- sorted, duplicate-free, only expected entries, all of them (or `min limit |expected|` of them) -/
-def judgeStrs (what : String) (k : Nat) (limit : Nat) (expected got : List String) : Option String :=
+/-- sorted, duplicate-free, only entries of stored matching series (`stored`), every entry of a matching
+    series with data in the queried range (`inRange ⊆ stored`); with a limit N: at most N entries and at
+    least `min N |inRange|` (= exactly `min N |unlimited|` whenever the range covers all data). -/
+def judgeStrs (what : String) (k : Nat) (limit : Nat) (stored inRange got : List String) : Option String :=
   if !strictlySorted got then some s!"violation {what}-not-sorted-unique op={k}"
-  else match got.find? (fun v => !expected.contains v) with
+  else match got.find? (fun v => !stored.contains v) with
   | some v => some s!"violation {what}-unsound op={k} extra={v}"
   | none =>
     if limit = 0 then
-      match expected.find? (fun v => !got.contains v) with
+      match inRange.find? (fun v => !got.contains v) with
       | some v => some s!"violation {what}-incomplete op={k} missing={v}"
       | none => none
-    else if got.length ≠ min limit (expected.eraseDups).length then
-      some s!"violation {what}-limit-size op={k} limit={limit} got={got.length} unlimited={(expected.eraseDups).length}"
+    else if got.length > limit ∨ got.length < min limit (inRange.eraseDups).length then
+      some s!"violation {what}-limit-size op={k} limit={limit} got={got.length} unlimited={(inRange.eraseDups).length}"
     else none
 
 def judge (ops outs : List String) : String :=
-  let rec go (lsets : List (List (String × String))) (ops outs : List String) (k : Nat) : String :=
+  let rec go (lsets : List (List (String × String))) (times : List Int) (ops outs : List String) (k : Nat) : String :=
     match ops, outs with
     | op :: ops, out :: outs =>
       match toks op with
       | "load" :: _ :: ss =>
-        match ss.mapM parseSeries? with
+        match ss.mapM parseSeriesT? with
         | some l =>
-          if out = s!"ok {l.length}" then go l ops outs (k + 1)
+          if out = s!"ok {l.length}" then go (l.map (·.1)) (l.map (·.2)) ops outs (k + 1)
           else s!"violation load-error op={k} out={out}"
         | none => "ok"
-      | "select" :: srt :: mtoks =>
-        match mtoks.mapM parseMatcher? with
-        | none => "ok"
-        | some ms =>
-          if ms.isEmpty || ms.any (fun m => m.name = "") then go lsets ops outs (k + 1) else
+      | "select" :: srt :: mint :: maxt :: mtoks =>
+        match mint.toInt?, maxt.toInt?, mtoks.mapM parseMatcher? with
+        | some mint, some maxt, some ms =>
+          if ms.isEmpty || ms.any (fun m => m.name = "") then go lsets times ops outs (k + 1) else
           match toks out with
           | ["ok", s] =>
             match (if s = "-" then some [] else (s.splitOn ",").mapM String.toNat?) with
             | none => s!"violation unparsable op={k}"
             | some got =>
               let n := lsets.length
-              let expected := (List.range n).filter fun i => sat ms (lsets[i]?.getD [])
+              let expected := (List.range n).filter fun i =>
+                sat ms (lsets[i]?.getD []) && decide (mint ≤ times[i]?.getD 0 ∧ times[i]?.getD 0 ≤ maxt)
               if got.any (· ≥ n) then s!"violation select-unknown-series op={k}"
               else if got.eraseDups.length ≠ got.length then s!"violation select-duplicate op={k}"
               else match got.find? (fun i => !expected.contains i) with
@@ -231,35 +262,42 @@ def judge (ops outs : List String) : String :=
                 | none =>
                   if srt = "1" && !labelsSorted (got.map fun i => lsets[i]?.getD []) then
                     s!"violation select-not-sorted op={k}"
-                  else go lsets ops outs (k + 1)
+                  else go lsets times ops outs (k + 1)
           | _ => s!"violation select-error op={k} out={out}"
-      | "lvals" :: n :: lim :: mtoks =>
-        match hexDec? n, lim.toNat?, mtoks.mapM parseMatcher? with
-        | some name, some lim, some ms =>
-          if ms.any (fun m => m.name = "") then go lsets ops outs (k + 1) else
+        | _, _, _ => "ok"
+      | "lvals" :: n :: lim :: mint :: maxt :: mtoks =>
+        match hexDec? n, lim.toNat?, mint.toInt?, maxt.toInt?, mtoks.mapM parseMatcher? with
+        | some name, some lim, some mint, some maxt, some ms =>
+          if ms.any (fun m => m.name = "") then go lsets times ops outs (k + 1) else
           match parseStrs? out with
           | none => s!"violation lvals-error op={k} out={out}"
           | some got =>
-            let expected := (lsets.filter (sat ms)).filterMap fun ls => ls.lookup name
-            match judgeStrs "lvals" k lim expected got with
+            let stored := lsets.filter (sat ms)
+            let inRange := (lsets.zip times).filterMap fun (ls, t) =>
+              if sat ms ls && decide (mint ≤ t ∧ t ≤ maxt) then some ls else none
+            match judgeStrs "lvals" k lim (stored.filterMap fun ls => ls.lookup name)
+                (inRange.filterMap fun ls => ls.lookup name) got with
             | some v => v
-            | none => go lsets ops outs (k + 1)
-        | _, _, _ => "ok"
-      | "lnames" :: lim :: mtoks =>
-        match lim.toNat?, mtoks.mapM parseMatcher? with
-        | some lim, some ms =>
-          if ms.any (fun m => m.name = "") then go lsets ops outs (k + 1) else
+            | none => go lsets times ops outs (k + 1)
+        | _, _, _, _, _ => "ok"
+      | "lnames" :: lim :: mint :: maxt :: mtoks =>
+        match lim.toNat?, mint.toInt?, maxt.toInt?, mtoks.mapM parseMatcher? with
+        | some lim, some mint, some maxt, some ms =>
+          if ms.any (fun m => m.name = "") then go lsets times ops outs (k + 1) else
           match parseStrs? out with
           | none => s!"violation lnames-error op={k} out={out}"
           | some got =>
-            let expected := (lsets.filter (sat ms)).flatMap fun ls => ls.map (·.1)
-            match judgeStrs "lnames" k lim expected got with
+            let stored := lsets.filter (sat ms)
+            let inRange := (lsets.zip times).filterMap fun (ls, t) =>
+              if sat ms ls && decide (mint ≤ t ∧ t ≤ maxt) then some ls else none
+            match judgeStrs "lnames" k lim (stored.flatMap fun ls => ls.map (·.1))
+                (inRange.flatMap fun ls => ls.map (·.1)) got with
             | some v => v
-            | none => go lsets ops outs (k + 1)
-        | _, _ => "ok"
+            | none => go lsets times ops outs (k + 1)
+        | _, _, _, _ => "ok"
       | _ => "ok"
     | _, _ => "ok"
-  go [] ops outs 0
+  go [] [] ops outs 0
 
 def suite : Suite := { name := "select", model := model, judge := judge }
 
